@@ -215,6 +215,25 @@ def _report_merge_results(missing_names: list[str], output: str) -> None:
         click.echo(f"  - {name}")
 
 
+def _ensure_merge_preserves_existing(merged_content: str, existing_config: dict, output: str) -> None:
+    """Refuse to write a merge result that is not valid YAML or changes existing settings.
+
+    Appending block-style sections to e.g. a flow-style document produces an unparsable file.
+    """
+    try:
+        merged_config = yaml.safe_load(merged_content)
+    except yaml.YAMLError:
+        merged_config = None
+    if isinstance(merged_config, dict) and all(
+        key in merged_config and merged_config[key] == value
+        for key, value in existing_config.items()
+    ):
+        return
+    click.echo(f"Error: Could not merge missing sections into {output} as YAML", err=True)
+    click.echo("Use --force to overwrite with a fresh config", err=True)
+    sys.exit(1)
+
+
 def perform_merge(
     output_path: Path, preset: str, output: str, generate_config_fn: Callable[[str], str]
 ) -> None:
@@ -238,6 +257,7 @@ def perform_merge(
 
     missing_sections = _build_missing_sections_dict(missing_names, template_sections)
     merged_content = merge_config_sections(existing_content, missing_sections)
+    _ensure_merge_preserves_existing(merged_content, existing_config, output)
     output_path.write_text(merged_content, encoding="utf-8")
 
     _report_merge_results(missing_names, output)
